@@ -77,16 +77,16 @@ def handle (op : String) (args : List PyVal) : Option (List PyVal) :=
     let cols ← asRefs cols
     let limit ← (match limit with | .none => some none | .int l => some (some l) | _ => none)
     pure (encPub (publicCollect names rows cols single limit))
-  | "rownew", [.list fields, .bool tuplesOnly, .bool exact, .list items] => do
+  | "rownew", [.list fields, .bool tuplesOnly, .list [.bool exact, .bool isDict, .bool mutable], .list items] => do
     let fields ← asStrs fields
     let items ← items.mapM decodeItem
-    match rowNew .none (createClass fields tuplesOnly) (.dict ⟨exact, items⟩) with
+    match rowNew .none (createClass fields tuplesOnly) (.dict ⟨exact, isDict, mutable, items⟩) with
     | some r => pure [.str "some", .list r]
     | none => pure [.str "none"]
-  | "rowappend", [.list fields, .bool exact, .list items] => do
+  | "rowappend", [.list fields, .list [.bool exact, .bool isDict, .bool mutable], .list items] => do
     let fields ← asStrs fields
     let items ← items.mapM decodeItem
-    match rowNew .none (createClass fields false) (.dict (Gen.DictGlue.appendPrepare ⟨exact, items⟩)) with
+    match rowNew .none (createClass fields false) (.dict (Gen.DictGlue.appendPrepare ⟨exact, isDict, mutable, items⟩)) with
     | some r => pure [.str "some", .list r]
     | none => pure [.str "none"]
   | "rownew", [.list fields, .bool tuplesOnly, .list t] => do
